@@ -194,6 +194,7 @@ structure RespHyp (sk : Skeleton) : Prop where
   shapes : sk.reqRespShapesOk = true
   callIs : sk.reqResponseCallIsReqCall = true
   onePer : sk.reqOneResponsePerBranch = true
+  untouched : sk.ucResultsUntouched = true   -- utils.Call hands back exactly what the function returned
 
 /-- After the function returned `r`, as long as neither marshal nor write fails: no `setErr`, no
     crash, and the one thing written — at the end — is `(req.Call, Err r)`. -/
@@ -247,7 +248,7 @@ theorem returns_not_fatal (sk : Skeleton) (hy : Hyp sk) (hr : RespHyp sk) (cid :
       obtain ⟨hq1, hq2⟩ := quiet gm (by simp [hpc])
       have hm' : Act.marshalFails ∉ l2 := fun h => hm (by simp [h])
       have hw' : Act.writeFails ∉ l2 := fun h => hw (by simp [h])
-      have := returned_run sk hr r l2 m1 s' (Or.inl (by subst h2; rfl)) hrun hm' hw'
+      have := returned_run sk hr r l2 m1 s' (Or.inl (by subst h2; simp [hr.untouched])) hrun hm' hw'
       subst h2
       simp only [hq1, hq2, gm.idOk, gm.nocrash, List.nil_append] at this
       exact ⟨this.1, this.2.1, this.2.2.2⟩
@@ -257,7 +258,7 @@ theorem returns_run (sk : Skeleton) (hr : RespHyp sk) (s : State) (r : Shape) (h
     (hcl : s.isClosureEntry = false ∨ r.isTwo = true) :
     run sk s [.handlerReturns r, .marshalOk, .respond] =
       some { s with pc := .done, responses := s.responses ++ [(s.callId, r.errStr)] } := by
-  rcases hcl with h | h <;> simp [run, runFrom, step, hpc, h, hr.shapes, hr.callIs, hr.onePer]
+  rcases hcl with h | h <;> simp [run, runFrom, step, hpc, h, hr.shapes, hr.callIs, hr.onePer, hr.untouched]
 
 /-! ### the statements the property files instantiate -/
 
